@@ -40,6 +40,14 @@ def _eval_description(text):
     return eval(text, {"FmtStr": FmtStr, "Chunk": Chunk, "slice": slice})
 
 
+def _lean_status():
+    try:
+        st = open(os.path.join(VERIF, ".venv", "lean_status")).read().strip()
+    except OSError:
+        st = "not checked in this setup"
+    return {"checked": "type-checked by Lean 4 + Mathlib during setup"}.get(st, st + " (then they are assumptions validated by the bounded suites)")
+
+
 class Obligation:
     __slots__ = ("id", "function", "kind", "solver", "result", "seconds", "detail")
 
@@ -185,6 +193,7 @@ class Check:
             "checker_cmd": f"bin/check {self.prop_id} {self.tier}",
             "trusted_base": [
                 "pyvc symbolic executor + value model (DESIGN 2.3), re-reading /repo source on every run",
+                "list-homomorphism lemma schemas lean/Lemmas.lean: " + _lean_status(),
                 "spec library / reference models under /verif/spec (validated against CPython each run)",
                 "cvc5 1.0.3 (--strings-exp) and z3 5.1.0 'unsat' answers",
                 "CPython 3.12 semantics of the supported constructs",
